@@ -27,8 +27,10 @@ structure Inv (s : State) : Prop where
   hand_none : ∀ k e, s.hand = some (k, e) → s.streams k = none ∧ s.closing = false
   nonempty : ∀ w, (s.pc w = some .pending ∨ s.pc w = some .spawned) → s.streams w.key ≠ some []
   noeos : s.closing = false → ∀ k b, s.streams k = some b → Item.eos ∉ b
-  lossless : s.closing = false → ∀ k, s.failedK k = false →
-               s.arrived k = s.started k ++ backlogEvs s k ++ handEvs s k
+  lossless : s.closed = false → ∀ k, s.failedK k = false →
+               s.arrived k = s.started k ++ backlogEvs s k ++ handEvs s k ++ s.dropped k
+  dropped_nil : s.closing = false → ∀ k, s.dropped k = []
+  eos_last : ∀ k b, s.streams k = some b → Item.eos ∉ b.dropLast
   started_spec : s.closed = false → ∀ k, s.started k = s.processed k ∨
                ∃ w e, w.key = k ∧ s.pc w = some (.busy e) ∧ s.started k = s.processed k ++ [e]
   busy_started : ∀ w e, s.pc w = some (.busy e) → s.started w.key = s.processed w.key ++ [e]
